@@ -29,6 +29,7 @@ CONSTANTS Cap0,        \* first capacity of bufadd / arrayadd (256)
           ObjCap,      \* LEN(p->obj) in init.c (32)
           DescCap,     \* sizeof(want), sizeof(got) in token.c (64)
           MaxParam,    \* macro parameters / arguments explored
+          NGuard,      \* number of range-guard probes rendered by the harness (eval.c float->int, decl.c array size, ...)
           BigLens,     \* large token lengths named by the property (beyond MaxLen; same growth rule)
           Depths       \* nesting depths named by the property
 
@@ -143,6 +144,9 @@ Cases ==
   \cup {[fam |-> f, n |-> n, class |-> 1, held |-> DescHeld(n)] : f \in {"desc_ident", "desc_number", "desc_string"}, n \in DescNeeds}
   \cup {[fam |-> "margs", n |-> np * 100 + na * 2 + v, class |-> ArgClass(np, na, v = 1), held |-> -1] :
             np \in 0..MaxParam, na \in 0..(MaxParam + 1), v \in {0, 1}}
+  \* guards before trapping arithmetic / range-checked conversions: C leaves the status open (undefined behaviour of the
+  \* program being compiled, or an implementation limit), the compiler itself must stay free of undefined operations
+  \cup {[fam |-> "guard", n |-> i, class |-> 2, held |-> -1] : i \in 1..NGuard}
   \cup {[fam |-> f, n |-> d, class |-> 0, held |-> -1] : f \in {"parens", "blocks", "declparens", "pointers", "unaryneg", "dims", "elseif",
                                                              "structnest", "casts", "sizeofs", "ternary", "lognot", "subscripts", "calls", "ifnest"}, d \in Depths}
 
